@@ -165,6 +165,20 @@ Proof.
     split; [auto|]. intros Hav. rewrite Hav in H2. simpl in H2. now apply nltb_R in H2.
 Qed.
 
+(* placeholder states: the policy row is a distribution over the state's own available actions *)
+Lemma c_pol_placeholder s :
+  c_polu m o t = true -> (s < nS m)%nat -> masked m s = true -> absorbing m s = false ->
+  (forall a, (a < nA m)%nat -> 0 < oPi o s a -> avail m s a = true) /\
+  Rabs (sumf (nA m) (oPi o s) - 1) <= ptol t.
+Proof.
+  unfold c_polu. rewrite forallbn_spec. intros H Hs Hm Hab. specialize (H s Hs).
+  rewrite Hm, Hab in H. simpl in H. apply andb_true_iff in H as [H1 H2]. split.
+  - rewrite forallbn_spec in H1. intros a Ha Hp. specialize (H1 a Ha).
+    assert (Hi : insupp o s a = true) by (unfold insupp; apply nltb_R; numR; exact Hp).
+    rewrite Hi in H1. exact H1.
+  - now apply ncloseb_R in H2.
+Qed.
+
 Definition eta (mx : R) : R :=
   band_hi t mx + 2 * qtol t + 2 * (gamma m * (epsb t / (1 - gamma m))).
 
